@@ -15,7 +15,7 @@ import regen_c01
 PID = "C01"
 sys.set_int_max_str_digits(0)
 THEOREMS = ["ivt_inverse", "ivt_words_untouched_elsewhere", "ivt_words_describe", "flags_decode", "len_is_sum_plain_crc",
-            "mbi_roundtrip_plain_crc", "mbi_roundtrip_signed_v1", "mbi_roundtrip_signed_v21", "repaired_findings_hold", "reloc_table_roundtrip", "reexport_stable", "mro_resolution_all_classes", "wf_class_sweep",
+            "mbi_roundtrip_plain_crc", "mbi_roundtrip_signed_v1", "mbi_roundtrip_signed_v21", "mbi_roundtrip_encrypted", "history_export_is_current_state", "repaired_findings_hold", "reloc_table_roundtrip", "reexport_stable", "mro_resolution_all_classes", "wf_class_sweep",
             "class_selection_sweep", "class_selection_refuted", "manifest_flags_and_is_bitwise", "disassemble_cuts_collect",
             "hmac_finalize_inverse"]
 MIXIN_IDS = regen_c01.MIXIN_IDS
@@ -233,6 +233,129 @@ def gen_cases(tier, rng, db):
             for b in bad:
                 cases.append(("rejected inputs", {"family": fam, "target": t, "auth": a, "app": b.hex(),
                                                   "opts": gen_opts(rng, db, fam, c, 1)}))
+    return cases
+
+
+# ------------------------------------------------------------------ object-reuse histories (one builder object, many exports)
+def hist_change(rng, db, fam, c, app, o, group):
+    """-> (app', opts') after changing the member group `group`, or None when the class has no such member"""
+    ms = set(mixset(c))
+    tzsize = db.fams[db.fidx[fam]]["tz_size"]
+    o = json.loads(json.dumps(o))
+    if group == "app":
+        n = len(app) // 2
+        n2 = rng.choice([x for x in (0x40, 0x44, 0x7C, 0x100, 0x1FD, 0x204, 0x400, n + 4, n + 0x41, max(0x40, n - 0x1C)) if (x + 3) // 4 != (n + 3) // 4])
+        return gen_app(rng, n2).hex(), o
+    if group == "tz":
+        mand = bool(ms & {"MixinTrustZoneMandatory", "MixinManifestCrc", "MixinManifestDigest"})
+        if not (mand or "MixinTrustZone" in ms) or not tzsize:
+            return None
+        kinds = [k for k in (["default", "custom"] if mand else ["disabled", "default", "custom"]) if k != (o.get("tz") or ["default"])[0]]
+        k = rng.choice(kinds)
+        o["tz"] = [k, rnd_bytes(rng, tzsize).hex()] if k == "custom" else [k]
+        return app, o
+    if group == "key_store":
+        if "MixinKeyStore" not in ms or not o.get("hmac_key"):
+            return None
+        if o.get("key_store"):
+            o.pop("key_store")
+        else:
+            o["key_store"] = rnd_bytes(rng, KS_SIZE).hex()
+        return app, o
+    if group == "reloc":
+        if "MixinRelocTable" not in ms:
+            return None
+        if o.get("reloc") and rng.getrandbits(1):
+            o.pop("reloc")
+        else:
+            o["reloc"] = [[rnd_bytes(rng, rng.choice([1, 4, 7, 16, 33])).hex(), rng.getrandbits(32)]
+                          for _ in range(rng.choice([1, 2, 3]))]
+        return app, o
+    if group == "load_address":
+        if not ms & {"MixinLoadAddress", "MixinLoadAddressOptional"}:
+            return None
+        o["load_address"] = rng.choice([x for x in (0x1000, 0x20000000, 0x8001000, rng.getrandbits(32)) if x != o.get("load_address")])
+        return app, o
+    if group == "hmac_key":
+        if not ms & {"MixinHmac", "MixinHmacMandatory"}:
+            return None
+        if "MixinHmac" in ms and o.get("hmac_key") and not o.get("key_store") and rng.getrandbits(1):
+            o.pop("hmac_key")
+        else:
+            o["hmac_key"] = rnd_bytes(rng, 32).hex()
+        return app, o
+    if group == "ctr_iv":
+        if "MixinCtrInitVector" not in ms:
+            return None
+        o["ctr_iv"] = rnd_bytes(rng, 16).hex()
+        return app, o
+    if group == "cert":
+        if "MixinCertBlockV1" in ms:
+            o["cert"] = CERTS_V1[1 - CERTS_V1.index(o["cert"])]
+            return app, o
+        if "MixinCertBlockV21" in ms and not o.get("digest") and not o.get("add_digest"):
+            o["cert"] = rng.choice([x for x in CERTS_V21 if x != o["cert"]])
+            return app, o
+        return None
+    if group == "image_version":
+        if "MixinImageVersion" not in ms:
+            return None
+        o["image_version"] = rng.choice([x for x in (0, 1, 0xFFFF, rng.getrandbits(16)) if x != o.get("image_version")])
+        return app, o
+    if group == "hw_key":
+        if "MixinHwKey" not in ms:
+            return None
+        o["hw_key"] = not o.get("hw_key")
+        return app, o
+    return None
+
+
+HIST_GROUPS = ["app", "tz", "key_store", "reloc", "load_address", "hmac_key", "ctr_iv", "cert", "image_version", "hw_key"]
+LEN_GROUPS = ["app", "tz", "key_store", "reloc", "cert", "hmac_key"]
+
+
+def gen_histories(tier, rng, db):
+    """One builder object, a sequence of 2..5 operations [export | change a member]; fixed histories first
+    (export, change of a length-affecting member, export), random ones after."""
+    cases = []
+    thorough = tier == "thorough"
+    seen = set()
+    for f in db.fams:
+        for t, a, cn in f["offers"]:
+            c = f["classes"][cn]
+            ci = db.comp_index(c)
+            if ci in seen or not supported(c):
+                continue
+            seen.add(ci)
+            fam = f["family"]
+
+            def start(v):
+                return gen_app(rng, rng.choice([0x40, 0x64, 0x100, 0x201])).hex(), gen_opts(rng, db, fam, c, v)
+
+            def emit(app0, o0, groups):
+                app, o, ops = app0, o0, []
+                for g in groups:
+                    if g == "export":
+                        ops.append(["export"])
+                        continue
+                    ch = hist_change(rng, db, fam, c, app, o, g)
+                    if ch is None:
+                        continue
+                    app, o = ch
+                    ops.append(["set", g, app, o])
+                if sum(1 for x in ops if x[0] == "export") >= 1 and len(ops) >= 2:
+                    cases.append(("object reuse histories", {"family": fam, "target": t, "auth": a, "app": app0, "opts": o0,
+                                                             "history": ops}))
+            # fixed: export / change / export for every length-affecting member the class has
+            for j, g in enumerate(LEN_GROUPS):
+                app0, o0 = start(j)
+                if hist_change(rng, db, fam, c, app0, o0, g) is not None:
+                    emit(app0, o0, ["export", g, "export"])
+            for v in range(8 if thorough else 1):
+                app0, o0 = start(v)
+                n = rng.choice([1, 2, 3])
+                mid = [rng.choice(HIST_GROUPS + ["export"]) for _ in range(n)]
+                emit(app0, o0, ["export"] + mid + ["export"])
     return cases
 
 
@@ -500,6 +623,29 @@ def diff_regions(a, b, kind):
     return "+".join(sorted(regs))
 
 
+def masked_pair(image, im2, sigs1, sigs2, ob, ms, manifest, isk_resigned):
+    """the two images with every signature-dependent byte zeroed (signatures recorded at the signing call; when the ISK
+    certificate was signed again -- ECDSA, randomised -- also the manifest CRC / digest derived from it)"""
+    a, b = bytearray(image), bytearray(im2)
+    if isk_resigned and manifest:
+        if "MixinManifestCrc" in ms:
+            mo = w32(image, 0x28) + len(bytes.fromhex(ob["cert"]["export"]))
+            tl = w32(image, mo + 12)
+            for t in (a, b):
+                t[mo + tl - 4:mo + tl] = bytes(4)
+        dgl = {"sha256": 32, "sha384": 48, "sha512": 64}.get((ob.get("manifest") or {}).get("digest"), 0)
+        if dgl:
+            for t in (a, b):
+                t[len(t) - dgl:] = bytes(dgl)
+    for src, tgt, sigs in ((image, a, sigs1), (im2, b, sigs2)):
+        for _, s in sigs or []:
+            s = bytes.fromhex(s)
+            pos = bytes(src).rfind(s)
+            if s and pos >= 0:
+                tgt[pos:pos + len(s)] = bytes(len(s))
+    return a, b
+
+
 def looks_like_reloc_tail(b):
     return len(b) >= 16 and w32(b, len(b) - 16) == 0x4C54424C and w32(b, len(b) - 12) == 0
 
@@ -507,6 +653,12 @@ def looks_like_reloc_tail(b):
 def oracle(case, res, db):
     """-> list of (signature, message); empty when the implementation satisfies the property on this case."""
     out = []
+    if res.get("reused") and res.get("export") != "ok":
+        if res.get("fresh") == "ok":
+            out.append((f"history:export-fails[{errtag(res.get('export'))}]:reused-object",
+                        f"export no. {case.get('export_no')} of a reused builder object fails ({res.get('export')}), a fresh object "
+                        f"with the same settings exports {len(res.get('fresh_image', '')) // 2} bytes"))
+        return out
     if build_outcome(res)[0] != "ok":
         bo = build_outcome(res)
         if bo[1] != 1:
@@ -560,6 +712,8 @@ def oracle(case, res, db):
             sel = None
     if sel is not None and sorted(sel) != sorted(ms) and res.get("parsed_class") != res.get("class"):
         cls.append("image-type-ambiguity(" + "+".join(m for m in sorted(set(ms) ^ set(sel))) + ")")
+    if res.get("reused"):
+        cls.append("reused-object")
     ctag = ",".join(cls) if cls else "general"
 
     def fail(what, msg):
@@ -609,6 +763,25 @@ def oracle(case, res, db):
             off = w28 + ((HMAC_SIZE + (KS_SIZE if ob.get("key_store") else 0)) if hmac_on else 0)
             if image[off:off + len(cb)] != cb:
                 fail("header:cert-offset", f"no certificate block at the offset announced by IVT word 0x28 ({w28:#x})")
+    # ---- object reuse: the k-th export of one object = the export of a fresh object with the current settings
+    if res.get("reused"):
+        if res.get("fresh") != "ok":
+            fail(f"history:fresh-fails[{errtag(res.get('fresh'))}]", f"the reused object exports, a fresh object with the same settings does not: {res.get('fresh')}")
+            return out
+        im2 = bytes.fromhex(res["fresh_image"])
+        isk = (ob.get("cert") or {}).get("isk_signature")
+        sigs1 = list(res.get("signed") or []) + ([["", isk]] if isk else [])
+        a, b = masked_pair(image, im2, sigs1, res.get("fresh_signed") or [], ob, ms, manifest, bool(isk))
+        if bytes(a) != bytes(b):
+            n = sum(1 for i in range(min(len(a), len(b))) if a[i] != b[i])
+            first = next((i for i in range(min(len(a), len(b))) if a[i] != b[i]), min(len(a), len(b)))
+            fail(f"history:differs[{diff_regions(bytes(a), bytes(b), kind)}]",
+                 f"export no. {case.get('export_no')} of a reused builder object (after {case.get('changed')}) differs from the export of a fresh "
+                 f"object with the same settings: lengths {len(a)}/{len(b)}, {n} bytes, first at {first:#x}")
+        if res.get("fresh_input") is not None and {k: v for k, v in res["fresh_input"].items() if k not in ("cert", "manifest")} != \
+                {k: v for k, v in ob.items() if k not in ("cert", "manifest")}:
+            fail("history:settings-differ", "the settings read from the reused object differ from those of the fresh object")
+        return out
     # ---- parse(export(x)) = x
     if res.get("parse") != "ok":
         fail(f"roundtrip:parse-fails[{errtag(res.get('parse'))}]", f"SPSDK cannot parse its own export: {res.get('parse')}")
@@ -652,29 +825,10 @@ def oracle(case, res, db):
             fail(f"{step}:fails[{errtag(res.get(step))}]", f"the parsed image cannot be exported again: {res.get(step)}")
             continue
         im2 = bytes.fromhex(res[key])
-        a, b = bytearray(image), bytearray(im2)
         isk = (ob.get("cert") or {}).get("isk_signature")
         sigs1 = list(res.get("signed") or []) + ([["", isk]] if isk else [])
         sigs2 = list(res.get("signed2" if key == "image2" else "signed3") or []) + ([["", isk]] if isk and key == "image3" else [])
-        if isk and key == "image2" and manifest:
-            # the ISK certificate is signed again (ECDSA, randomised): words derived from it are signature dependent too
-            if "MixinManifestCrc" in ms:
-                mo = w32(image, 0x28) + len(bytes.fromhex(ob["cert"]["export"]))
-                tl = w32(image, mo + 12)
-                for t in (a, b):
-                    t[mo + tl - 4:mo + tl] = bytes(4)
-            dgl = {"sha256": 32, "sha384": 48, "sha512": 64}.get((ob.get("manifest") or {}).get("digest"), 0)
-            if dgl:
-                for t in (a, b):
-                    t[len(t) - dgl:] = bytes(dgl)
-        for src, tgt, sigs in ((image, a, sigs1), (im2, b, sigs2)):
-            for _, s in sigs or []:
-                s = bytes.fromhex(s)
-                pos = bytes(src).rfind(s)
-                if s and pos >= 0:
-                    tgt[pos:pos + len(s)] = bytes(len(s))
-        if kind == "signed-v21" and (ob.get("manifest") or {}).get("digest"):
-            pass
+        a, b = masked_pair(image, im2, sigs1, sigs2, ob, ms, manifest, isk and key == "image2")
         if bytes(a) != bytes(b):
             n = sum(1 for i in range(min(len(a), len(b))) if a[i] != b[i])
             first = next((i for i in range(min(len(a), len(b))) if a[i] != b[i]), min(len(a), len(b)))
@@ -728,7 +882,7 @@ def run(tier):
     except Exception as ex:  # noqa
         rep.obligation("translate:device database + mbi_mixin classes -> Gen/GenMbi.v", False, repr(ex))
     model_ok, mlog = vlib.coq_make(["Model/MbiIoModel.vo"])
-    vlib.check_theorems(rep, PID, THEOREMS, ["Proofs/MbiProofs.vo", "Proofs/MbiRtProofs.vo", "Proofs/MbiKindsProofs.vo", "Proofs/MbiSweepProofs.vo"])
+    vlib.check_theorems(rep, PID, THEOREMS, ["Proofs/MbiProofs.vo", "Proofs/MbiRtProofs.vo", "Proofs/MbiKindsProofs.vo", "Proofs/MbiEncProofs.vo", "Proofs/MbiHistProofs.vo", "Proofs/MbiSweepProofs.vo"])
     vlib.audit(rep)
     if d is None:
         try:
@@ -736,7 +890,7 @@ def run(tier):
         except Exception:  # noqa
             return rep.finish(rule="", trusted_base=[], checker_cmd="", assumptions=[])
     db = Db(d)
-    cases = gen_cases(tier, rng, db)
+    cases = gen_cases(tier, rng, db) + gen_histories(tier, rng, db)
     vlib.log(f"[C01] {len(cases)} cases over {len(db.comps)} compositions / {len(db.fams)} families")
     # ---- implementation
     CH = 60
@@ -751,10 +905,44 @@ def run(tier):
     with ThreadPoolExecutor(max_workers=8) as ex:
         results = [r for rs in ex.map(run_chunk, enumerate(chunks)) for r in rs]
     vlib.log(f"[C01] implementation ran {len(results)} cases in {__import__('time').time() - t_impl:.1f} s")
+    # ---- object-reuse histories: every export of a history becomes a case of its own (settings = those current at that export)
+    for idx in range(len(cases)):
+        stream, case = cases[idx]
+        if "history" not in case:
+            continue
+        res = results[idx]
+        cur, k, changed = (case["app"], case["opts"]), 0, []
+        if res.get("load") != "ok":
+            rep.failing("history:load-fails", f"{case['family']} {case['target']}/{case['auth']}: history start settings rejected: {res.get('load')}",
+                        {"kind": "impl-oracle", "case": case, "signature": "history:load-fails"})
+        for op, e in zip(case["history"], res.get("history") or []):
+            if op[0] == "set":
+                cur = (op[2], op[3])
+                changed.append(op[1])
+                if e.get("set") != "ok":
+                    rep.failing(f"history:set-fails[{op[1]}]", f"{case['family']} {case['target']}/{case['auth']}: fresh object for the changed member {op[1]} cannot be built: {e.get('set')}",
+                                {"kind": "impl-oracle", "case": case, "signature": f"history:set-fails[{op[1]}]"})
+                    break
+                continue
+            k += 1
+            sub = {"family": case["family"], "target": case["target"], "auth": case["auth"], "app": cur[0], "opts": cur[1],
+                   "export_no": k, "changed": "+".join(changed) or "nothing", "history_case": case}
+            r = dict(e)
+            r.update({"config": "ok", "load": "ok", "reused": True, "class": res.get("class"), "mixins": res.get("mixins", []),
+                      "image_type": res.get("image_type")})
+            cases.append((stream, sub))
+            results.append(r)
     # ---- oracles + model expressions
     exprs, plan = [], []
     stats = {}
     for idx, ((stream, case), res) in enumerate(zip(cases, results)):
+        if "history" in case:
+            st = stats.setdefault(stream, {"n": 0, "built": 0, "parsed": 0, "distinct": set(), "samples": []})
+            st["n"] += 1
+            if len(st["samples"]) < 3:
+                st["samples"].append({"family": case["family"], "target": case["target"], "auth": case["auth"],
+                                      "ops": [op[0] if op[0] == "export" else "set " + op[1] for op in case["history"]]})
+            continue
         res["mixins_short"] = short(res.get("mixins", []))
         _, c = db.offer_class(case["family"], case["target"], case["auth"])
         if res.get("parsed_class"):
@@ -764,12 +952,15 @@ def run(tier):
             if os.environ.get("C01_DEBUG_SIGS"):
                 vlib.log(f"  SIG {sig}")
             rep.failing(sig, f"{case['family']} {case['target']}/{case['auth']} app {len(case['app']) // 2} B: {msg}",
-                        {"kind": "impl-oracle", "case": case, "class": res.get("class"), "signature": sig,
+                        {"kind": "impl-oracle", "case": case.get("history_case", case), "export_no": case.get("export_no"),
+                         "class": res.get("class"), "signature": sig,
                          "steps": {k: res.get(k) for k in ("load", "export", "parse", "observe", "create_config",
                                                            "reexport", "reexport_direct")}})
         st = stats.setdefault(stream, {"n": 0, "built": 0, "parsed": 0, "distinct": set(), "samples": []})
-        st["n"] += 1
-        if len(st["samples"]) < 3:
+        st["n"] += 0 if res.get("reused") else 1
+        if res.get("reused") and res.get("export") != "ok":
+            continue
+        if len(st["samples"]) < 3 and not res.get("reused"):
             st["samples"].append({"family": case["family"], "target": case["target"], "auth": case["auth"],
                                   "app_len": len(case["app"]) // 2, "opts": {k: (v if not isinstance(v, str) or len(v) < 40 else v[:16] + "...") for k, v in case["opts"].items() if k not in ("tz", "reloc")}})
         if not supported(c) or not model_ok:
@@ -892,7 +1083,7 @@ def run(tier):
                       "hand model Model/MbiModel.v tied by correspondence",
                       "primitive outputs (signature, HMAC, AES-CTR key stream, digest) are inputs of the model: C02/C09",
                       "certificate blocks are byte strings with a length: C03", "CPython semantics of the untranslated code"],
-        checker_cmd="coqc -R . V Props/C01/*.v (after make Proofs/MbiProofs.vo Proofs/MbiRtProofs.vo Proofs/MbiSweepProofs.vo)",
+        checker_cmd="coqc -R . V Props/C01/*.v (after make Proofs/MbiProofs.vo Proofs/MbiRtProofs.vo Proofs/MbiKindsProofs.vo Proofs/MbiEncProofs.vo Proofs/MbiHistProofs.vo Proofs/MbiSweepProofs.vo)",
         assumptions=["latest revision of every family", "application given as a raw binary file (ELF/S19/HEX loading is C16)",
                      "BCA/FCF based families (mc56f81xxx, mwct20xx, mcxc) are exercised by the oracles only, not modelled",
                      "X.509 / certificate block content is opaque (length and header words only)"])
